@@ -296,6 +296,7 @@ func (n *nodeSim) checkSettled(where string) {
 				}
 				n.res.Violate("C05", "I1-retention", sig+"/"+n.algo, "%s (%s, accepted %v ago, no successful transmission) is in the store but not flagged pending at %s (received %d times)",
 					tr.spec.Tag, tr.via, time.Since(tr.tAccept), where, tr.reinjected+1)
+				tr.lostPending = true
 				continue
 			}
 			if !ok {
@@ -322,7 +323,7 @@ func (n *nodeSim) checkSettled(where string) {
 				n.res.Violate("C05", "I1-retention", "retained-payload-differs", "%s: stored payload differs from the accepted one", tr.spec.Tag)
 			}
 		}
-		if n.idReusedAfterRestart(tr) {
+		if n.idReusedAfterRestart(tr) || tr.lostPending {
 			continue // reported once under I1
 		}
 		if n.algo == "dtlsr" && tr.via == "deliver" && !tr.dtlsrJudged && tr.reinjected == 0 {
@@ -441,7 +442,7 @@ func (n *nodeSim) finale() {
 	}
 	for i := 0; i < len(n.ex.Bundles); i++ {
 		tr := n.tracks[i]
-		if tr == nil || tr.localDst || tr.refused != "" || tr.dupOf != 0 || !n.live(tr) || n.idReusedAfterRestart(tr) {
+		if tr == nil || tr.localDst || tr.refused != "" || tr.dupOf != 0 || !n.live(tr) || n.idReusedAfterRestart(tr) || tr.lostPending {
 			continue
 		}
 		if dp := tr.dstPeer(n); dp != 0 && n.connected(dp) {
@@ -482,7 +483,7 @@ func (n *nodeSim) finale() {
 
 	for i := 0; i < len(n.ex.Bundles); i++ {
 		tr := n.tracks[i]
-		if tr == nil || tr.dupOf != 0 {
+		if tr == nil || tr.dupOf != 0 || tr.lostPending || n.idReusedAfterRestart(tr) {
 			continue
 		}
 		_, pend := items[tr.spec.Tag]
